@@ -28,6 +28,9 @@ def stores_for(ctx, mix, scale=1):
         out.append((pipe.single(gen.render(rng, gen.program(rng))), "a.s", "random"))
     for _ in range(mix.get("handlers", 0) * k):
         out.append((pipe.single(gen.handler_prog(rng)), "a.s", "handlers"))
+    for _ in range(mix.get("stoptree", 0) * k):       # the analysis stops on a condition that lies (also) in an included file
+        f, _n, kind, _w = gen.stopping_tree(rng)
+        out.append((f, "a.s", "stoptree:" + kind))
     if mix.get("cutflow", 0) or mix.get("cutinjected", 0):
         from props import C15          # programs spread over include trees (cut at random line boundaries)
         for _ in range(mix.get("cutflow", 0) * k):
